@@ -25,7 +25,8 @@ def run(chk):
         return [(i, {"kind": "oracle", "oracle": "C16", "what": m, "script": s, "observed": o, "driver": "runner_driver"})
                 for i, (s, o) in enumerate(zip(seqs, obs)) for m in [oracles.check_seq("C16", s, o)] if m]
 
-    rc.run_runner_check(chk, "C04", "proj_C04", OPTS, theorems_ok=ok, extra_oracle=handler_protocol)
+    rc.run_runner_check(chk, "C04", "proj_C04", OPTS, theorems_ok=ok, extra_oracle=handler_protocol,
+                        extra_seqs=rc.hold_hung_sequences(chk.rng, OPTS, modes=("call",)))
     values_part(chk)
     if ok:
         import source_tie
